@@ -8,12 +8,16 @@ from .observe import canon
 
 NESTED = {'NM': 'NelderMeadSimplexSolver', 'Powell': 'PowellDirectionalSolver', 'DE': 'DifferentialEvolutionSolver'}
 
-def nested_instance(plan):
+def nested_instance(plan, configured=True):
     """a configured nested-solver INSTANCE (the documented alternative to passing the class): the ensemble deep-copies
     it for every member, so the user's instance can be handed to one ensemble after another"""
     import mystic.solvers as ms
     cls = getattr(ms, NESTED[plan['nested']])
     inst = cls(plan['dim'], plan['nested_np']) if plan.get('nested_np') else cls(plan['dim'])
+    if configured: configure_instance(inst, plan)
+    return inst
+
+def configure_instance(inst, plan):
     # with an instance the ensemble applies none of its own settings to the members: the user configures the instance
     # (here: exactly as the ensemble is configured, objective included)
     inst.SetRandomInitialPoints()
